@@ -244,6 +244,18 @@ def child_main(spec_file, out_file):
     tmp = tempfile.mkdtemp(prefix='pytough-verif-%s-' % prop)
     out = {'status': 'ok'}
     ctx = None
+    cov = None
+    if os.environ.get('VERIF_COVERAGE_DIR'):
+        # development aid (tools/coverage_map.sh): which lines of the repository the workloads of a check reach
+        import coverage
+        cov = coverage.Coverage(data_file=os.path.join(os.environ['VERIF_COVERAGE_DIR'], '.coverage.%s.%s.%d' % (prop, shard, os.getpid())),
+                                include=[os.path.join(REPO, '*.py')])
+        cov.start()
+    argmap = None
+    if os.environ.get('VERIF_ARGMAP_DIR'):
+        # development aid: which optional arguments of the repository's functions the workloads ever set
+        from vf import argmap as _am
+        argmap = _am.start(REPO)
     try:
         os.chdir(tmp)
         mod = importlib.import_module('vf.props.%s' % prop.lower())
@@ -257,6 +269,11 @@ def child_main(spec_file, out_file):
         out['status'] = 'harness_error'
         out['error'] = ''.join(traceback.format_exception(type(e), e, e.__traceback__))[-6000:]
     finally:
+        if cov is not None:
+            cov.stop()
+            cov.save()
+        if argmap is not None:
+            argmap.stop(os.path.join(os.environ['VERIF_ARGMAP_DIR'], 'argmap.%s.%s.%d.json' % (prop, shard, os.getpid())))
         os.chdir('/')
         shutil.rmtree(tmp, ignore_errors=True)
     if ctx is not None:
